@@ -80,7 +80,13 @@ func VerifHarness_C04_header_authenticated() {
 	rec[which] = nv
 	if which >= 3 {
 		// a changed length field changes how many bytes the receiver takes: supply enough arbitrary tail
-		rec = append(rec, verifNondetBytes("tail", 20)...)
+		// (arbitrary bytes in the thorough tier; zeros in the quick tier, where every feasible padding length read
+		// from an arbitrary tail would be its own path)
+		tail := make([]byte, 20)
+		if verifBound(0, 1) == 1 {
+			tail = verifNondetBytes("tail", 20)
+		}
+		rec = append(rec, tail...)
 	}
 	vmac.wire = rec
 	if which >= 3 {
